@@ -354,6 +354,7 @@ pub fn execute(frame: &[u8], frame_len: usize, window: u64, program: &Program, s
             let mut ti = 0usize;
             let mut idle_at_end = 0;
             let mut total_read = 0usize;
+            let mut pool: Vec<u8> = vec![];
             loop {
                 let avail = cuts[ci.min(cuts.len() - 1)];
                 let offered = &frame[pos..avail];
@@ -362,12 +363,18 @@ pub fn execute(frame: &[u8], frame_len: usize, window: u64, program: &Program, s
                 if tsize == 0 && ti >= 2 * targets.len() {
                     tsize = 1024;
                 }
-                let mut buf = vec![0x5Au8; tsize];
+                // one target buffer, kept filled with the canary value (a fresh allocation per call
+                // costs more than the call when the source arrives two bytes at a time)
+                if pool.len() < tsize {
+                    pool.resize(tsize, 0x5A);
+                }
+                let buf = &mut pool[..tsize];
                 ti += 1;
                 let fin_before = dec.is_finished() && dec.bytes_read_from_source() > 0;
-                let (r, w) = dec.decode_from_to(offered, &mut buf).map_err(|e| Failure::new("valid_frame_rejected", format!("decode_from_to({} bytes offered at {pos}): {e}", offered.len())))?;
+                let (r, w) = dec.decode_from_to(offered, buf).map_err(|e| Failure::new("valid_frame_rejected", format!("decode_from_to({} bytes offered at {pos}): {e}", offered.len())))?;
                 ensure!(r <= offered.len(), "from_to_overconsume", "decode_from_to reports {r} bytes consumed but only {} were offered (position {pos} of {frame_len})", offered.len());
-                ensure!(w <= buf.len() && buf[w..].iter().all(|&b| b == 0x5A), "read_wrote_past_count", "decode_from_to wrote {w} into a target of {} / beyond", buf.len());
+                // (the canary scan looks at what lies behind the reported count, at most 4 KiB per call)
+                ensure!(w <= buf.len() && buf[w..(w + 4096).min(buf.len())].iter().all(|&b| b == 0x5A), "read_wrote_past_count", "decode_from_to wrote {w} into a target of {} / beyond", buf.len());
                 ensure!(!(fin_before && r > 0), "from_to_consumes_after_end", "decode_from_to consumed {r} bytes after the frame was finished");
                 if !dec.is_finished() && w > 0 {
                     st.drains_before_finish += 1;
@@ -378,13 +385,15 @@ pub fn execute(frame: &[u8], frame_len: usize, window: u64, program: &Program, s
                 pos += r;
                 total_read += r;
                 out.extend_from_slice(&buf[..w]);
+                buf[..w].fill(0x5A);
+                let buf_is_empty = buf.is_empty();
                 if dec.is_finished() && dec.can_collect() == 0 {
                     break;
                 }
                 if r == 0 && w == 0 {
                     if ci + 1 < cuts.len() {
                         ci += 1;
-                    } else if !buf.is_empty() {
+                    } else if !buf_is_empty {
                         idle_at_end += 1;
                         if idle_at_end > 3 {
                             fail!("from_to_stalls", "decode_from_to makes no progress with the complete frame offered (position {pos} of {frame_len}, finished {}, collectable {})", dec.is_finished(), dec.can_collect());
